@@ -63,6 +63,21 @@ type c15Op struct {
 }
 
 // c15Exec performs the call on the given live objects and renders the result.
+// c15Retained collects every *Password the history's Generate calls returned, with a snapshot taken at once.
+type c15Kept struct {
+	p    *spg.Password
+	toks []TokRec
+	ent  uint32
+}
+
+var c15Retained []c15Kept
+
+func c15Retain(p *spg.Password) {
+	if p != nil && len(c15Retained) < 4000 {
+		c15Retained = append(c15Retained, c15Kept{p, tokRecs(p), math.Float32bits(p.Entropy)})
+	}
+}
+
 func c15Exec(op c15Op, cr *spg.CharRecipe, wr *spg.WLRecipe, wl *spg.WordList, sf spg.SFFunction) string {
 	var t *tape.Tape
 	if op.Script != nil {
@@ -73,6 +88,7 @@ func c15Exec(op c15Op, cr *spg.CharRecipe, wr *spg.WLRecipe, wl *spg.WordList, s
 		switch op.Call {
 		case "Generate":
 			o := runGen(cr, t)
+			c15Retain(o.Pw)
 			if o.Pw != nil {
 				return outcomeKey(o) + fmt.Sprintf("|E=%08x", math.Float32bits(o.Pw.Entropy))
 			}
@@ -91,6 +107,7 @@ func c15Exec(op c15Op, cr *spg.CharRecipe, wr *spg.WLRecipe, wl *spg.WordList, s
 		switch op.Call {
 		case "Generate":
 			o := runGen(wr, t)
+			c15Retain(o.Pw)
 			if o.Pw == nil {
 				if o.Err != nil {
 					return "ERR:" + o.Err.Error()
@@ -299,6 +316,7 @@ func c15Case(c *Ctx) {
 }
 
 func c15History(c *Ctx, r *gen.R, nops int, sample bool) {
+	c15Retained = nil
 	pool := &c15Pool{}
 	// shared RequireSets backing array (with spare capacity)
 	pool.shared = make([]string, 2, 6)
@@ -343,6 +361,14 @@ func c15History(c *Ctx, r *gen.R, nops int, sample bool) {
 		return
 	}
 	sepRec := spg.CharRecipe{Length: r.Range(1, 2), AllowChars: []string{"xy", "+=-", "12語"}[r.Intn(3)]}
+	switch r.Intn(5) {
+	case 0: // a separator recipe that can never be honoured: its function yields "" every time
+		sepRec = spg.CharRecipe{Length: 1, Require: spg.Digits | spg.Symbols}
+	case 1: // empty alphabet
+		sepRec = spg.CharRecipe{Length: 2}
+	case 2: // with a requirement
+		sepRec = spg.CharRecipe{Length: 2, AllowChars: "ab", RequireSets: []string{"1"}}
+	}
 	sharedSF := spg.NewSFFunction(sepRec)
 	nwl := r.Range(1, 2)
 	for i := 0; i < nwl; i++ {
@@ -500,6 +526,19 @@ func c15History(c *Ctx, r *gen.R, nops int, sample bool) {
 		ops = append(ops, op)
 		results = append(results, res)
 	}
+	// ---- passwords returned during the history must still be what they were
+	for _, k := range c15Retained {
+		now := tokRecs(k.p)
+		same := len(now) == len(k.toks) && math.Float32bits(k.p.Entropy) == k.ent
+		for i := 0; same && i < len(now); i++ {
+			same = now[i] == k.toks[i]
+		}
+		if !same {
+			c.Violate("returned-password-changed-later", fmt.Sprintf("a password returned earlier in the history (%v) reads %v at the end of the history", abbreviateToks(k.toks), abbreviateToks(now)), nil)
+			return
+		}
+	}
+	c.Count("retained_passwords_rechecked", int64(len(c15Retained)))
 	// ---- history independence: the same calls on fresh values in a fresh process
 	self, err := os.Executable()
 	if err != nil {
